@@ -27,11 +27,12 @@ def _evaluate(pid, tier, model, quiet):
         except AnalysisError as e:
             # a rule could not finish; if other rules already found violations, report those (exit 1) and
             # mention the incomplete analysis - otherwise this is exit 2
-            if not ctx.findings:
+            # (recorded known findings are on the unchanged tree as well: they do not turn an incomplete analysis into a verdict)
+            if not _new_findings(ctx):
                 return "error", ctx, str(e)
             return "violation", ctx, f"analysis incomplete after the findings below: {e}"
         if ctx.errors:
-            if not ctx.findings:
+            if not _new_findings(ctx):
                 return "error", ctx, "; ".join(ctx.errors)
             return "violation", ctx, f"some rules could not finish: {'; '.join(ctx.errors)[:400]}"
         return ("violation" if _new_findings(ctx) else "ok"), ctx, None
